@@ -3,7 +3,7 @@ from .. import routing as R
 from .. import vfcore as V
 
 PROP = "C01"
-TARGETS = ["theories/Routing/Witness.vo", "theories/Routing/Basic.vo"]
+TARGETS = ["theories/Routing/Witness.vo", "theories/Routing/Basic.vo", "theories/Routing/Inv.vo"]
 
 
 def nontrivial(h, ev):
@@ -31,11 +31,15 @@ def check(tier, seed):
 replay = R.replay
 
 MANIFEST = {
-    "technique": "Coq theorems over an action-system model of routing mode (ack aggregation, registration, refutation witness) + differential correspondence and safe-ack monitor on the real streamRouting in a synctest bubble",
+    "technique": "Coq invariant proof over all action sequences of the routing transition system (end-to-end safe-ack theorem, 14-clause invariant, ~1400 lines) + refutation witness for the "
+                 "pre-fix code + differential correspondence and safe-ack monitor on the real streamRouting in a synctest bubble",
     "text": "The routing model is an action system whose atomic actions are the code's critical sections and channel operations; its executable scheduler is extracted and compared, event by event, "
-            "with the real proxyStreamSender/Receiver pairs and shardManager driven through in-memory streams (canonical per-stream observables). Theorems in coq/properties/C01.v: the executable "
-            "semantics only performs actions of the system; the value sent upstream is below the value of every target in the per-target map including merely registered ones; registration covers every "
-            "target handed a task; the pre-fix code is refuted by a concrete history (F1) that is safe now. The executable safe-ack monitor (the property itself) is applied to every implementation trace. "
-            "The end-to-end invariant over all action sequences is stated in DESIGN.md appendix A; the part proved so far is listed in the evidence obligations.",
-    "note": "Trusted: Coq kernel, extraction, the synctest harness and its fake streams, generator disciplines. Modelled not verified: gRPC/Go runtime semantics, single proxy instance (no memberlist).",
+            "with the real proxyStreamSender/Receiver pairs and shardManager driven through in-memory streams (canonical per-stream observables). C01_safe_acks (coq/properties/C01.v, proved in theories/Routing/Inv.v): for every number of "
+            "sources and targets and every sequence of actions - every interleaving of all goroutines' critical sections - with well-behaved sources and no stream failure, every acknowledgement sent "
+            "to a source is safe when it is sent (stated with the same executable monitor that is applied to implementation traces); C01_safe_acks_executable transfers it to the extracted event-level "
+            "semantics; the invariant (placement and order of every received task, registration, goodness of every value in flight, ring bookkeeping) holds in every reachable state. The pre-fix code "
+            "is refuted by a concrete history (F1) that is safe now.",
+    "note": "Hypotheses of the theorem: sources follow Temporal's sender contract (wf_act), a target connects once and no stream fails (failures are C04, where the statement is refuted). Trusted: "
+            "Coq kernel, extraction, the synctest harness and its fake streams, generator disciplines. Modelled not verified: gRPC/Go runtime semantics, single proxy instance (no memberlist); the ring "
+            "buffer is abstract here and refined in C05.",
 }
